@@ -121,14 +121,17 @@ func remoteScenarios(c *Ctx) []remoteScenario {
 		Cuts: []cutSpec{{At: 2500 * time.Millisecond, For: 700 * time.Millisecond}},
 	}}
 	if c.Thorough() {
-		sc[0].Cuts = append(sc[0].Cuts, cutSpec{At: 9 * time.Second, For: 1500 * time.Millisecond})
+		// a cut stream stalls until the QUIC idle timeout (about 45 s): the second cut of a scenario
+		// comes after the transfer has resumed
+		sc[0].Plan = plan{Name: "remote-two-cuts", Steps: []string{"w1000", "s1200", "w5000", "s2500", "w70000", "s50000", "w300", "s8000", "w10"}}
+		sc[0].Cuts = append(sc[0].Cuts, cutSpec{At: 56 * time.Second, For: 1 * time.Second})
 		sc = append(sc,
 			remoteScenario{Name: "cut-after-finish",
 				Plan: plan{Name: "remote-cut-after-finish", Steps: []string{"w200000", "s1000", "w5"}},
 				Cuts: []cutSpec{{At: 300 * time.Millisecond, For: 6 * time.Second}}},
 			remoteScenario{Name: "relay-restart", Relay: true,
-				Plan: plan{Name: "remote-relay-restart", Steps: []string{"w3000", "s3000", "w66000", "s6000", "w77", "s4000", "w1"}},
-				Cuts: []cutSpec{{At: 4 * time.Second, For: 1 * time.Second, Relay: true}, {At: 15 * time.Second, For: 500 * time.Millisecond}}},
+				Plan: plan{Name: "remote-relay-restart", Steps: []string{"w3000", "s3000", "w66000", "s50000", "w77", "s8000", "w1"}},
+				Cuts: []cutSpec{{At: 4 * time.Second, For: 1 * time.Second, Relay: true}, {At: 58 * time.Second, For: 500 * time.Millisecond}}},
 			remoteScenario{Name: "no-cut",
 				Plan: plan{Name: "remote-no-cut", Steps: []string{"w10", "s500", "w65536", "s500", "w1"}}},
 		)
